@@ -45,8 +45,8 @@ var checks = map[string]checkCfg{
 		Real:   []string{"builder.FromPcap", "gopacket reassembly", "udpreassembly", "libpcap (cgo) reading real pcap/pcapng files", "index writer/reader", "second engine: the whole manager (as in C10)"},
 		Stub:   []string{"network path and capture tap (netsim)", "wall clock", "map order", "second engine: job scheduling, clock, map order (controller)"},
 		Assume: []string{"netsim ground truth is what the endpoints exchanged", "well-formed traffic only: no capture loss, no conflicting overlaps, no IP fragments, handshake-complete TCP"}},
-	"C08": {Engine: "bsim", Engine2: "mgrsim", Engine2Every: 4, QuickS: 30, ThoroughS: 900, Level: "exploration",
-		Rule:   "one case = one seeded capture set and 2-5 import histories (partition into batches x arrival order chronological/reversed/shuffled x importer restarts x snapshot files kept or dropped x snapshot interval 5..200 packets or shipped 100000), each compared with a one-shot import up to stream numbering, plus id stability after every batch. distinct = distinct hash of (capture shape, histories); non-trivial = more than one file or a conversation spanning files. Every fourth worker runs mgrsim: the captures are imported through the service in seeded batches and orders with merges, restarts and disk errors in between, and every view is compared with a one-shot import of the captures reported processed",
+	"C08": {Engine: "bsim", Engine2: "mgrsim", Engine2Every: 2, QuickS: 40, ThoroughS: 900, Level: "exploration",
+		Rule:   "one case = one seeded capture set and 2-5 import histories (partition into batches x arrival order chronological/reversed/shuffled x importer restarts x snapshot files kept or dropped x snapshot interval 5..200 packets or shipped 100000), each compared with a one-shot import up to stream numbering, plus id stability after every batch. distinct = distinct hash of (capture shape, histories); non-trivial = more than one file or a conversation spanning files. Every second worker runs mgrsim: the captures are imported through the service in seeded batches and orders with merges, restarts and disk errors in between, and every view is compared with a one-shot import of the captures reported processed",
 		Real:   []string{"builder.FromPcap / builder.New", "snapshots save/load", "index writer/reader", "libpcap", "second engine: the whole manager"},
 		Stub:   []string{"network path and capture tap (netsim)", "wall clock", "map order", "snapshot interval knob"},
 		Assume: []string{"the one-shot import is the reference (tied to ground truth by C05)"}},
